@@ -500,7 +500,16 @@ class Runtime:
             if obs not in info["obs"]:
                 continue
             oi = info["obs"][obs]
-            ast, aft = a["ast"], a["aft"]
+            # the *recorded* times are what the task table will show: read
+            # them from the task at the end of the run, not at the moment the
+            # task body ended (something may rewrite them afterwards)
+            rel_done = rel.get(tid)
+            if rel_done is None and run.outcome != "returned":
+                ast, aft = a["ast"], a["aft"]
+            else:
+                ast, aft = a["task_obj"].ast, a["task_obj"].aft
+                if (ast, aft) != (a["ast"], a["aft"]):
+                    run.note("recorded-times-rewritten-after-task-end")
             if kind == "ingest":
                 R = oi["dur"]
                 what = "ingest"
